@@ -581,6 +581,29 @@ example : HostBase exBaseCase ∧ ¬ AbsBase exBaseCase := by
 example : (URL.navigateWith true exBaseCase (URL.ofText "../D?k".toList)).toText = "http://Us@a.example/D?k".toList := by
   decide
 
+/-- **chained navigation through reference TEXTS = resolving the texts step by step** (repaired code): every text
+    is parsed by Appendix B (`rfcParse`) on the RFC side and by `URL(text)` on the code side -/
+theorem chained_texts_eq_rfc_repaired (b : URL) (ts : List Str) (hb : AbsBase b) (hd : DotFree b.parts)
+    (hts : ∀ t ∈ ts, RelText t ∧ CanonQ (rfcParse t).query) :
+    (URL.navigateAllWith true b (ts.map URL.ofText)).toRef.canon = (resolveAll b.toRef (ts.map rfcParse)).canon := by
+  have e : ts.map URL.ofText = (ts.map rfcParse).map URL.ofRelRef := by
+    rw [List.map_map]
+    apply List.map_congr_left
+    intro t ht
+    simp only [Function.comp, URL.ofText]
+    rw [(ref_text_parse t (hts t ht).1).1]
+  rw [e]
+  apply chained_eq_rfc_repaired b (ts.map rfcParse) hb hd
+  intro r hr
+  obtain ⟨t, ht, rfl⟩ := List.mem_map.1 hr
+  exact ⟨(hts t ht).1, (hts t ht).2⟩
+
+example : ∀ t ∈ ["../x/./y?k=1&k".toList, "?".toList, "#top".toList, "..//z".toList],
+    RelText t ∧ CanonQ (rfcParse t).query := by decide
+example : (URL.navigateAllWith true exBaseMulti
+      (["../x/./y?k=1&k".toList, "?".toList, "#top".toList, "..//z".toList].map URL.ofText)).toText
+    = "http://a//z".toList := by decide
+
 /-! ### navigate's glue: which component comes from where (any base, any non-replacing reference, either version) -/
 
 /-- the fragment is never inherited: the result carries the reference's fragment (none if it has none) -/
